@@ -223,7 +223,7 @@ func (r *TaskRunner) before(ctx context.Context, t *task.Task, env, vars variabl
 		return nil
 	}
 
-	execContext, err := r.contextForTask(t)
+	execContext, err := r.lookupContext(t)
 	if err != nil {
 		return err
 	}
@@ -253,7 +253,7 @@ func (r *TaskRunner) after(ctx context.Context, t *task.Task, env, vars variable
 		return nil
 	}
 
-	execContext, err := r.contextForTask(t)
+	execContext, err := r.lookupContext(t)
 	if err != nil {
 		return err
 	}
@@ -304,12 +304,27 @@ func (r *TaskRunner) contextForTask(t *task.Task) (c *ExecutionContext, err erro
 	return c, nil
 }
 
+// lookupContext returns the task's execution context without running its hooks:
+// Run has already started the context and run its "before" commands for this task execution
+func (r *TaskRunner) lookupContext(t *task.Task) (*ExecutionContext, error) {
+	if t.Context == "" {
+		return DefaultContext(), nil
+	}
+
+	c, ok := r.contexts[t.Context]
+	if !ok {
+		return nil, fmt.Errorf("no such context %s", t.Context)
+	}
+
+	return c, nil
+}
+
 func (r *TaskRunner) checkTaskCondition(t *task.Task) (bool, error) {
 	if t.Condition == "" {
 		return true, nil
 	}
 
-	executionContext, err := r.contextForTask(t)
+	executionContext, err := r.lookupContext(t)
 	if err != nil {
 		return false, err
 	}
